@@ -11,13 +11,15 @@ TRUSTED = T01 + ["numpy: np.repeat / reshape contracts used by expand_array"]
 def tasks(tier):
     from props.mandoline_parents import parent_tasks
     from props.mandoline_boxes import box_tasks
-    return kernel_tasks("C08", ["expand"]) + parent_tasks("C08", 2) + box_tasks("C08", ["plate"])
+    from props.mandoline_parents import names_tasks
+    return kernel_tasks("C08", ["expand"]) + parent_tasks("C08", 2) + box_tasks("C08", ["plate"]) + names_tasks("C08")
 
 
 def canaries(tier):
     from props.mandoline_parents import parent_canaries
     from props.mandoline_boxes import box_canaries
-    return kernel_canaries(["expand"]) + parent_canaries(2) + box_canaries(["plate"])
+    from props.mandoline_parents import names_canaries
+    return kernel_canaries(["expand"]) + parent_canaries(2) + box_canaries(["plate"]) + names_canaries()
 
 
 SCENARIO_TIMEOUT = 300
